@@ -69,6 +69,35 @@ def check_tables(names, workdir):
             "domain": "scalars 6 kinds x widths {1,2,4,8}; leaf types scalar/vector/matrix/atomic x 3 representations; 14 address spaces; 8 access sets; 8 stage sets"}
 
 
+def build_script_env(workdir):
+    """what cargo exports to a build script of a crate with the usual optional features (PATH, HOME etc. stay inherited)"""
+    e = {"OUT_DIR": workdir, "CARGO_MANIFEST_DIR": workdir, "CARGO_PKG_NAME": "app", "CARGO_PKG_VERSION": "0.1.0",
+         "PROFILE": "release", "DEBUG": "false", "OPT_LEVEL": "3", "NUM_JOBS": "1", "TARGET": "wasm32-unknown-unknown",
+         "HOST": "x86_64-unknown-linux-gnu", "CARGO_CFG_TARGET_OS": "windows", "CARGO_CFG_TARGET_ARCH": "wasm32",
+         "CARGO_CFG_TARGET_POINTER_WIDTH": "32", "CARGO_CFG_TARGET_ENDIAN": "big", "CARGO_CFG_WINDOWS": "", "DOCS_RS": "1",
+         "CI": "true", "RUST_LOG": "trace", "NO_COLOR": "1", "SOURCE_DATE_EPOCH": "0", "CARGO_ENCODED_RUSTFLAGS": "--cfg\x1ffoo"}
+    for f in ("SERDE", "BYTEMUCK", "ENCASE", "GLAM", "NALGEBRA", "DEFAULT", "VALIDATE", "RUSTFMT", "STD", "DEBUG"):
+        e["CARGO_FEATURE_" + f] = "1"
+    return e
+
+
+def with_build_env(prop, cases):
+    """ENV_RERUN = n: n of the cases (spread over the list) are repeated as cases made from a build-script environment"""
+    n = getattr(prop, "ENV_RERUN", 0)
+    if not n or not cases:
+        return cases
+    import copy
+    step = max(1, len(cases) // n)
+    extra = []
+    for c in cases[::step][:n]:
+        d = copy.deepcopy(c)
+        d["env"] = "build_script"
+        d["family"] = str(d.get("family", "")) + "+build_script_env"
+        d.pop("id", None)
+        extra.append(d)
+    return cases + extra
+
+
 def evaluate(prop, cases, workdir, tag):
     """Run cases through the real generator and Coq. Returns list of per-case records."""
     for i, c in enumerate(cases):
@@ -79,10 +108,22 @@ def evaluate(prop, cases, workdir, tag):
             c["opts"]["validate"] = True      # every third case goes through naga's validator as well (it must only gate)
     try:
         plain = [{k: c[k] for k in ("id", "wgsl", "include", "opts", "want_text", "want_toks", "want_rest", "want_lit") if k in c} for c in cases]
+        envi = [i for i, c in enumerate(cases) if c.get("env") == "build_script"]
+        keep = [i for i, c in enumerate(cases) if c.get("env") != "build_script"]
         if hasattr(prop, "run_cases"):
-            results = prop.run_cases(plain, cases, workdir, tag)
+            res0 = prop.run_cases([plain[i] for i in keep], [cases[i] for i in keep], workdir, tag)
         else:
-            results = run_driver(plain, workdir, tag, timeout=getattr(prop, "DRIVER_TIMEOUT", 3000))
+            res0 = run_driver([plain[i] for i in keep], workdir, tag, timeout=getattr(prop, "DRIVER_TIMEOUT", 3000))
+        results = [None] * len(cases)
+        for i, r in zip(keep, res0):
+            results[i] = r
+        if envi:
+            # the same calls made from a process whose environment is that of a cargo build script (the documented way to
+            # run the generator): the output is a function of source and options only, so model and property must still hold
+            res1 = run_driver([plain[i] for i in envi], workdir, tag + "_benv", timeout=getattr(prop, "DRIVER_TIMEOUT", 3000),
+                              env=build_script_env(workdir))
+            for i, r in zip(envi, res1):
+                results[i] = r
     except subprocess.TimeoutExpired:
         # the generator did not finish: every case of this batch is reported as failing its property
         recs = [{"case": c, "res": {"parse_ok": True, "result": "timeout", "features": []},
@@ -147,6 +188,7 @@ def replay_payload(prop, rec, what, tier, seed):
         "verdict_fields": getattr(prop, "VERDICT_FIELDS", ["wf", "a_model_agrees", "b_property_holds"]),
         "extract_err": r.get("extract_err"), "text": r.get("text"),
         "note": c.get("note"),
+        **({"env": c["env"], "env_vars": build_script_env("<workdir>")} if c.get("env") else {}),
     }
 
 
@@ -257,7 +299,8 @@ def main(prop_name, tier, seed, replay=None):
     rng = random.Random(seed)
     if replay:
         rp = json.load(open(replay))
-        stage_lists = [[{"wgsl": rp["wgsl"], "include": rp.get("include"), "opts": rp["opts"], "family": "replay"}]]
+        stage_lists = [[{"wgsl": rp["wgsl"], "include": rp.get("include"), "opts": rp["opts"], "family": "replay",
+                         **({"env": rp["env"]} if rp.get("env") else {})}]]
     elif hasattr(prop, "stages"):
         stage_lists = prop.stages(rng, tier)
     else:
@@ -273,7 +316,7 @@ def main(prop_name, tier, seed, replay=None):
         stage_lists[0] = wit + list(stage_lists[0])
     recs, errors = [], []
     for si, cases in enumerate(stage_lists):
-        r, e = evaluate(prop, cases, workdir, "main%d" % si)
+        r, e = evaluate(prop, cases if replay else with_build_env(prop, cases), workdir, "main%d" % si)
         recs.extend(r)
         errors.extend(e)
         if classify(prop, r)[0]:
@@ -293,7 +336,7 @@ def main(prop_name, tier, seed, replay=None):
     if (disag or wfbad or broken or errors or not th_ok) and not viol and not replay:
         # the theorem no longer transfers to the code: search for a concrete failing input
         extra = prop.cases(random.Random(seed + 1), "search")
-        recs2, errors2 = evaluate(prop, extra, workdir, "search")
+        recs2, errors2 = evaluate(prop, with_build_env(prop, extra), workdir, "search")
         searched = len(recs2)
         v2, _, _, _, _ = classify(prop, recs2)
         viol.extend(v2)
